@@ -11,6 +11,7 @@ import Driver.Util
 import LcdbModel.Model.Lsm
 import LcdbModel.Model.DbIter
 import Driver.IoAbs
+import LcdbModel.Model.Files
 open Lcdb Drv
 
 structure BatchRec where
@@ -33,6 +34,7 @@ structure TS where
   everOpened : Bool := false
   justOpened : Bool := false
   logNum : Nat := 0
+  manifestNum : Nat := 0
   problems : List String := []
   lineNo : Nat := 0
   nGets : Nat := 0
@@ -48,6 +50,10 @@ structure TS where
   maxFiles : Nat := 0
   levelsUsed : Nat := 0
   iter : Option (Nat × DbIterState) := none   -- current user iterator: (sequence, state)
+  longIters : List (Nat × Nat × List (Bytes × String) × DbIterState) := []   -- id ↦ (sequence, pinned visible map, cursor)
+  pinned : List (Nat × List Nat) := []       -- iterator id ↦ table numbers of the version it pins
+  gcSinceIterClose : Bool := true
+  nLongIterOps : Nat := 0
   lastW : List WOp := []
   lastWF : List WOp := []
   faultMode : Bool := false
@@ -146,6 +152,7 @@ def sameEntries (c : Cmp) (a b : Run) : Bool :=
 def handleEdit (t : TS) (spec : String) (rc : String) : TS :=
   if rc != "rc=0" then t   -- a failed apply installs nothing
   else
+  let t := { t with gcSinceIterClose := true }   -- every successful version install is followed by ldb_remove_obsolete_files
   match spec.splitOn ";" with
   | [ds, as] =>
     match parseList parseDel ds ",", parseList parseAdd as "," with
@@ -212,18 +219,23 @@ def isLog (n : String) : Option Nat := if n.endsWith ".log" then (n.dropEnd 4).t
 def handleLs (t : TS) (names : String) : TS :=
   let t := { t with nLs := t.nLs + 1 }
   let ns := if names == "." then [] else names.splitOn ","
+  -- the keep rules of ldb_remove_obsolete_files (Model/Files.lean) evaluated on the model state: at a quiescent
+  -- point (no iterator, no compaction) the only live version is the current one and nothing is pending
+  let gs : Files.GcState := { liveVersions := [(allFiles t.st).map (·.num)] ++ t.pinned.map (·.2), pending := [], logNumber := t.logNum, prevLogNumber := 0,
+                              manifestNumber := t.manifestNum, nextFile := t.st.nextFile, bgError := false }
+  let garbage := ns.filter (fun n => !Files.keep gs n)
+  -- files of a version that was pinned by an iterator are collected by the next garbage collection after the iterator is gone
+  let t := if garbage.isEmpty || !t.gcSinceIterClose then t
+           else t.problem "VIOLATION[files]" s!"files that the keep rules would delete are still there at a quiescent point: {garbage} (live tables {(allFiles t.st).map (·.num)}, log number {t.logNum}, manifest {t.manifestNum})"
   let tables := ns.filterMap isTable
-  let logs := ns.filterMap isLog
-  let live := (allFiles t.st).map (·.num)
-  let t := if tables.all (fun n => live.contains n) then t
-           else t.problem "VIOLATION[files]" s!"garbage table files at a quiescent point: {tables.filter (fun n => !live.contains n)} (live: {live})"
+  let live := (allFiles t.st).map (·.num) ++ (t.pinned.flatMap (·.2))
   let t := if live.all (fun n => tables.contains n) then t
            else t.problem "VIOLATION[files]" s!"live table files missing from the directory: {live.filter (fun n => !tables.contains n)}"
-  let t := if logs.all (fun n => n ≥ t.logNum) then t else t.problem "VIOLATION[files]" s!"obsolete log files remain: {logs} (log number {t.logNum})"
+  let logs := ns.filterMap isLog
   let t := if logs.length ≤ 1 || t.st.imm.isSome then t else t.problem "VIOLATION[files]" s!"more than one log at a quiescent point: {logs}"
   let manifests := ns.filter (fun n => n.startsWith "MANIFEST-")
   let t := if manifests.length == 1 then t else t.problem "VIOLATION[files]" s!"expected exactly one MANIFEST, found {manifests}"
-  if ns.any (fun n => n.endsWith ".dbtmp") then t.problem "VIOLATION[files]" "temporary file left behind" else t
+  if ns.contains "CURRENT" then t else t.problem "VIOLATION[files]" "CURRENT is missing"
 
 def lastView (c : Cmp) (es : List Entry) (k : Bytes) : Option String := view c es k (2 ^ 62)
 
@@ -287,6 +299,28 @@ def parseIterOp (op : String) : Option IterOp :=
   | ["LT", k] => (parseBytes k).map .seekLt
   | _ => none
 
+def handleIt (t : TS) (seq op valid key val status : String) : TS :=
+  match seq.toNat? with
+  | some s =>
+    let t := { t with nIter := t.nIter + 1 }
+    -- the model iterator is created at the first op of an `iter` command (F/L/seek all reposition from scratch)
+    let entries := allEntries t.st
+    let vis := visibleMap t.cmp entries s
+    let c0 : DbIterState := match t.iter with | some (s', c) => if s' == s then c else .invalid | none => .invalid
+    match (parseIterOp op).map (mapCursorStep t.cmp vis c0) with
+    | none => t.problem "MISMATCH[other]" s!"unparsable iterator op {op}"
+    | some c1 =>
+      let exp := match mapCursorGet vis c1 with
+        | some (k, v) => s!"1 {hexOfBytes k} {v}"
+        | none => "0 - -"
+      let got := s!"{valid} {key} {val}"
+      let t := { t with iter := some (s, c1) }
+      if t.faultMode && status != "0" then { t with iter := some (s, c1) } else
+      let t := if status == "0" then t else t.problem "VIOLATION[iter]" s!"iterator status {status} after {op}"
+      if got == exp then t else t.problem (if s < t.st.lastSeq then "VIOLATION[snapiter]" else "VIOLATION[iter]") s!"iterator at sequence {s} after {op}: implementation ({got}), a sorted map of the visible entries dictates ({exp})"
+  | none => t.problem "MISMATCH[other]" "unparsable it line"
+
+
 def handleLine (t : TS) (line : String) : TS :=
   let t := { t with lineNo := t.lineNo + 1 }
   let fields := line.trimAscii.toString.splitOn " "
@@ -299,7 +333,7 @@ def handleLine (t : TS) (line : String) : TS :=
     else
       let cmp := if c == "cmp=rev" then Cmp.reverse else if c == "cmp=len" then Cmp.lenFirst else Cmp.bytewise
       -- a reopen with nothing replayed still empties the (already empty) memtables
-      { t with cmp := cmp, isOpen := true, everOpened := true, justOpened := true, st := { t.st with snaps := [] } }
+      { t with cmp := cmp, isOpen := true, everOpened := true, justOpened := true, gcSinceIterClose := true, longIters := [], pinned := [], st := { t.st with snaps := [] } }
   | ["close"] => { t with isOpen := false, iter := none }
   | ["switch"] => t.doStep .switchMem "memtable switch"
   | ["w", ops] =>
@@ -331,6 +365,7 @@ def handleLine (t : TS) (line : String) : TS :=
     | _, _, _ => t.problem "MISMATCH[other]" "unparsable file dump"
   | ["edit", spec, rc] => handleEdit t spec rc
   | ["ver", ls, nf, ln, immf, levels] => handleVer t ls nf ln immf levels
+  | ["ver", ls, nf, ln, immf, levels, m] => { (handleVer t ls nf ln immf levels) with manifestNum := ((m.drop 2).toString.toNat?).getD 0 }
   | ["mem", entries] =>
     match parseEntries entries with
     | some run =>
@@ -366,27 +401,39 @@ def handleLine (t : TS) (line : String) : TS :=
     | some s => t.doStep (.release s) "release snapshot"
     | none => t.problem "MISMATCH[other]" "unparsable rel"
   | ["ls", names] => handleLs t names
-  | ["it", seq, op, "->", "skip"] => let _ := (seq, op); t
-  | ["it", seq, op, "->", valid, key, val, status] =>
-    match seq.toNat? with
-    | some s =>
-      let t := { t with nIter := t.nIter + 1 }
-      -- the model iterator is created at the first op of an `iter` command (F/L/seek all reposition from scratch)
-      let entries := allEntries t.st
-      let vis := visibleMap t.cmp entries s
-      let c0 : DbIterState := match t.iter with | some (s', c) => if s' == s then c else .invalid | none => .invalid
-      match (parseIterOp op).map (mapCursorStep t.cmp vis c0) with
-      | none => t.problem "MISMATCH[other]" s!"unparsable iterator op {op}"
-      | some c1 =>
-        let exp := match mapCursorGet vis c1 with
-          | some (k, v) => s!"1 {hexOfBytes k} {v}"
-          | none => "0 - -"
-        let got := s!"{valid} {key} {val}"
-        let t := { t with iter := some (s, c1) }
-        if t.faultMode && status != "0" then { t with iter := some (s, c1) } else
-        let t := if status == "0" then t else t.problem "VIOLATION[iter]" s!"iterator status {status} after {op}"
-        if got == exp then t else t.problem (if s < t.st.lastSeq then "VIOLATION[snapiter]" else "VIOLATION[iter]") s!"iterator at sequence {s} after {op}: implementation ({got}), a sorted map of the visible entries dictates ({exp})"
-    | none => t.problem "MISMATCH[other]" "unparsable it line"
+  | ["iopen", id, seq] =>
+    match id.toNat?, seq.toNat? with
+    | some i, some s =>
+      -- the iterator pins the memtables and the version current at its creation: its view is fixed now
+      let vis := visibleMap t.cmp (allEntries t.st) s
+      { t with longIters := (i, s, vis, .invalid) :: t.longIters.filter (fun p => p.1 != i),
+               pinned := (i, (allFiles t.st).map (·.num)) :: t.pinned.filter (fun p => p.1 != i) }
+    | _, _ => t.problem "MISMATCH[other]" "unparsable iopen"
+  | ["iclose", id] => { t with longIters := t.longIters.filter (fun p => some p.1 != id.toNat?), pinned := t.pinned.filter (fun p => some p.1 != id.toNat?), gcSinceIterClose := false }
+  | [tag, _seq, _op, "->", "skip"] => if tag.startsWith "it" then t else t.problem "MISMATCH[other]" s!"unknown transcript line: {line.take 80}"
+  | [tag, seq, op, "->", valid, key, val, status] =>
+    if !tag.startsWith "it@" then
+      (if tag == "it" then handleIt t seq op valid key val status else t.problem "MISMATCH[other]" s!"unknown transcript line: {line.take 80}")
+    else
+    match (tag.drop 3).toString.toNat?, seq.toNat? with
+    | some id, some s =>
+      match t.longIters.find? (fun p => p.1 == id) with
+      | some (_, s', vis, c0) =>
+        let t := { t with nIter := t.nIter + 1, nLongIterOps := t.nLongIterOps + 1 }
+        match (parseIterOp op).map (mapCursorStep t.cmp vis c0) with
+        | none => t.problem "MISMATCH[other]" s!"unparsable iterator op {op}"
+        | some c1 =>
+          let exp := match mapCursorGet vis c1 with
+            | some (k, v) => s!"1 {hexOfBytes k} {v}"
+            | none => "0 - -"
+          let got := s!"{valid} {key} {val}"
+          let t := { t with longIters := (id, s', vis, c1) :: t.longIters.filter (fun p => p.1 != id) }
+          let t := if s == s' then t else t.problem "MISMATCH[other]" "iterator sequence changed"
+          if t.faultMode && status != "0" then t else
+          let t := if status == "0" then t else t.problem "VIOLATION[liveiter]" s!"long-lived iterator {id} reports status {status} after {op} (later writes / compactions / file deletions must not disturb it)"
+          if got == exp then t else t.problem "VIOLATION[liveiter]" s!"long-lived iterator {id} (view fixed at sequence {s'}) after {op}: implementation ({got}), the view fixed at its creation dictates ({exp})"
+      | none => t.problem "MISMATCH[other]" s!"iterator {id} not open"
+    | _, _ => t.problem "MISMATCH[other]" "unparsable it@ line"
   | "j" :: idx :: "mark" :: "wbegin" :: _ => { t with lastBegin := idx.toNat?.getD 0, nJ := t.nJ + 1 }
   | ["j", idx, "mark", "wack", seq0, cnt, log, sync] =>
     match idx.toNat?, seq0.toNat?, cnt.toNat?, log.toNat? with
@@ -433,4 +480,4 @@ def main : IO Unit := do
   let t ← loop stdin {}
   for p in (t.problems ++ t.io.problems).take 40 do
     IO.println p
-  IO.println s!"done lines={t.lineNo} writes={t.nWrites} gets={t.nGets} iterops={t.nIter} flushes={t.nFlush} compactions={t.nCompact} trivialmoves={t.nTrivial} recoveries={t.nRecover} invchecks={t.nInv} vers={t.nVer} ls={t.nLs} crashes={t.nCrash} crashes2={t.nCrash2} crashnonempty={t.nCrashNontrivial} jevents={t.nJ} ioevents={t.io.nEvents} edits={t.io.nEdits} conforms={if t.io.mon.ok then 1 else 0} conformsstrict={if t.io.mon.ok && t.io.mon.okDel then 1 else 0} werr={t.nWerr} failedbatches={t.nFailedBatches} maxfiles={t.maxFiles} levelsused={t.levelsUsed} problems={t.problems.length + t.io.problems.length}"
+  IO.println s!"done lines={t.lineNo} writes={t.nWrites} gets={t.nGets} iterops={t.nIter} flushes={t.nFlush} compactions={t.nCompact} trivialmoves={t.nTrivial} recoveries={t.nRecover} invchecks={t.nInv} vers={t.nVer} ls={t.nLs} liveiterops={t.nLongIterOps} crashes={t.nCrash} crashes2={t.nCrash2} crashnonempty={t.nCrashNontrivial} jevents={t.nJ} ioevents={t.io.nEvents} edits={t.io.nEdits} conforms={if t.io.mon.ok then 1 else 0} conformsstrict={if t.io.mon.ok && t.io.mon.okDel then 1 else 0} werr={t.nWerr} failedbatches={t.nFailedBatches} maxfiles={t.maxFiles} levelsused={t.levelsUsed} problems={t.problems.length + t.io.problems.length}"
